@@ -2,6 +2,8 @@ import GlyProofs.Front.WalkDen
 import GlyModel.Api.Query
 import GlyProofs.Front.CreateLemmas
 import GlyProofs.Api.EmbedLemmas
+import GlyProofs.Api.Leaves
+import GlyProofs.Front.ComponentsFloat
 /-
   C16 — Structural queries agree with the structure. (Property theorems only.)
 -/
@@ -146,5 +148,42 @@ theorem C16_count_examples :
     Embed.count matchBasic (edgeEq true) g q = 1 ∧ Embed.count matchBasic (edgeEq false) g q = 2 ∧
     Embed.count matchBasic (edgeEq true) g g = 1 := by
   decide +kernel
+
+open Gly.Plan in
+/-- **`summary()["leaves"]`** (`[n for n, d in parse_tree.out_degree() if d == 0]`, Model `outLeaves`): for every written glycan
+    without floating parts, the nodes without outgoing edge among the residues written to the left of the reducing end are exactly
+    the residues with nothing attached to them (`leafIds` over the compositional reading, pre-order ids), and there are
+    `leaves` of them; the reducing end itself is a leaf iff nothing is written to its left. -/
+theorem C16_leaves (w : WalkCfg) (s : Start) (hf : s.floats = []) (br : Branch) (hb : s.begin.branch = some br) :
+    outLeaves (walkStart w s).edges (List.range' 1 (den br .nil).size) = leafIds (den br .nil) 1 ∧
+    outLeaves (walkStart w s).edges [0] = [] := by
+  rw [walkStart_eq_denStart]
+  simp only [denStart, hf, List.foldl_nil, hb]
+  obtain ⟨_, he⟩ := flatten_edges w (den br .nil) 0 (addNode w s.begin.d (s.begin.config.getD []) WState.init).2
+    (by simp [addNode, WState.init])
+  have hn : (addNode w s.begin.d (s.begin.config.getD []) WState.init).2.nodes.length = 1 := by simp [addNode, WState.init]
+  have he0 : (addNode w s.begin.d (s.begin.config.getD []) WState.init).2.edges = [] := by simp [addNode, WState.init]
+  have hid : (addNode w s.begin.d (s.begin.config.getD []) WState.init).1 = 0 := by simp [addNode, WState.init]
+  rw [hid, he, he0, hn, List.nil_append]
+  refine ⟨outLeaves_spec w (den br .nil) 0 1 (by omega), ?_⟩
+  -- node 0 has an outgoing edge: the forest to its left is not empty
+  have hroot := filter_parent w (den br .nil) 0 1 (by omega)
+  simp only [outLeaves, List.filter_cons, List.filter_nil, hroot, rootEdges_isEmpty]
+  cases hd : den br .nil with
+  | nil => exact absurd hd (den_ne_nil br .nil)
+  | cons _ _ _ _ => simp
+
+open Gly.Plan in
+theorem C16_leaf_count (F : GF) (n : Nat) : (leafIds F n).length = leaves F := by
+  induction F generalizing n with
+  | nil => rfl
+  | cons l nm kids rest ihk ihr =>
+    cases kids with
+    | nil => simp [leafIds, leaves, ihr, GF.size]; omega
+    | cons l2 n2 k2 r2 =>
+      have h1 := ihk (n + 1)
+      have h2 := ihr (n + 1 + (GF.cons l2 n2 k2 r2).size)
+      show ([] ++ leafIds (GF.cons l2 n2 k2 r2) (n + 1) ++ leafIds rest (n + 1 + (GF.cons l2 n2 k2 r2).size)).length = _
+      simp only [List.nil_append, List.length_append, h1, h2, leaves]
 
 end Gly.Props.C16
